@@ -111,7 +111,7 @@ pub fn check_reads(h: &History, obs: &mut Obs) -> CheckResult {
 }
 
 fn run(ctx: &Ctx) {
-    let n = ctx.share(ctx.tier.pick(500_000, 5_000_000));
+    let n = ctx.share(ctx.tier.pick(500_000, 12_000_000));
     let parsers = vec![
         ParserId::Cnf,
         ParserId::Wcnf,
@@ -145,7 +145,7 @@ fn run(ctx: &Ctx) {
             }
         });
     ctx.run_cases("line-bounded", n, strat, check_stream);
-    let n = ctx.share(ctx.tier.pick(300_000, 4_000_000));
+    let n = ctx.share(ctx.tier.pick(300_000, 8_000_000));
     ctx.run_cases("read-accounting", n, history_strategy(600, 60, false), check_reads);
 }
 
